@@ -67,6 +67,10 @@ type Grammar struct {
 	// base (9, 010, 011, 012 ..); 2 wide gaps (1, 20, 300, 4000 ..); 3 and 4
 	// steps of three across 2^8 and 2^16.
 	PrecSpelling int
+	// PadToks unused tokens are declared BEFORE the grammar's own tokens: every
+	// terminal the grammar uses gets a number PadToks higher (numbers beyond one
+	// machine word of bits, one byte, ..).
+	PadToks int `json:"pad_toks,omitempty"`
 }
 
 func (g *Grammar) Lit(i int) string {
@@ -174,6 +178,9 @@ func (g *Grammar) ParserText() string {
 func (g *Grammar) LexerText() string {
 	var b strings.Builder
 	b.WriteString("@lexer\n")
+	for i := 0; i < g.PadToks; i++ {
+		fmt.Fprintf(&b, "PAD%d = '#%d#'\n", i, i)
+	}
 	for i, t := range g.Toks {
 		fmt.Fprintf(&b, "%s = '%s'\n", t, g.Lit(i))
 	}
@@ -236,7 +243,7 @@ func (g *Grammar) CarrierUserGo(bounds bool) string {
 
 // Clone deep-copies g.
 func (g *Grammar) Clone() *Grammar {
-	c := &Grammar{Toks: append([]string(nil), g.Toks...), AliasRefs: g.AliasRefs, PrecSpelling: g.PrecSpelling}
+	c := &Grammar{Toks: append([]string(nil), g.Toks...), AliasRefs: g.AliasRefs, PrecSpelling: g.PrecSpelling, PadToks: g.PadToks}
 	if g.Lits != nil {
 		c.Lits = append([]string(nil), g.Lits...)
 	}
@@ -282,7 +289,7 @@ func (g *Grammar) HasQualifiers() bool {
 // Scheme 1: Ea, Eb, Ec, .. (upper-case initial: before most token names and
 // with the start rule first). Scheme 2: zr, yr, xr, .. (name order is the
 // reverse of declaration order, so that rule numbers and the numbers of the
-// states reached on them run in opposite directions).
+// states reached on them run in opposite directions). Scheme 3: ERROR, EOF, Ec, ..
 func (g *Grammar) RenameRules(scheme int) {
 	switch scheme {
 	case 1:
@@ -293,6 +300,20 @@ func (g *Grammar) RenameRules(scheme int) {
 		// name order is the reverse of declaration order
 		for i := range g.Rules {
 			g.Rules[i].Name = string(rune('z'-i)) + "r"
+		}
+	case 3:
+		// rules named like the built-in terminals (legal: rule names are Go
+		// identifiers): wherever symbols are ordered or looked up by name, a
+		// rule and a terminal now tie
+		for i := range g.Rules {
+			switch i {
+			case 0:
+				g.Rules[i].Name = "ERROR"
+			case 1:
+				g.Rules[i].Name = "EOF"
+			default:
+				g.Rules[i].Name = "E" + string(rune('a'+i))
+			}
 		}
 	}
 }
